@@ -16,6 +16,13 @@ R09.6 "otherwise consumes max_len bytes" for every max_len of the 32-bit API: th
       compared as unsigned 32-bit quantities in every scan-loop implementation - in the C loop no signed compare and
       no sign extension touches the bound parameter, in the assembly loops no signed condition follows a compare
       with the bound register.  (A signed bound makes a run of 2^31 bytes or more consume nothing.)
+R09.7 one comparison domain: on every path of an assembly scan loop the two sides of each hit compare are both
+      bit-compressed with pext or neither is (the BMI2 loop compares pext(hash, mask) with pext(trigger, mask); a
+      path that reaches a compare before the trigger was compressed tests a different predicate).
+R09.8 the reported index is the index of the byte that hit: on every path of a scan loop (a block at most twice;
+      assembly: linear forms of the position register, C loop: SSA values with phis resolved along the path) the
+      value stored through idx equals the index of the last byte that indexed t1 when the path leaves through the
+      "equal" edge of the trigger compare, and that index + 1 when it leaves because the bound was reached.
 R09.3 no private tables: the scan loops (_rolling_hash2_run_until_{base,00,04}) read table entries only through
       their t1/t2 arguments, never from static storage.
 """
@@ -249,6 +256,134 @@ def run(chk):
         chk.obligation("R09.3", not bad, key=name, sample={"function": name, "instructions": f.insns})
         for i in bad[:2]:
             chk.finding(Finding("R09.3", f.obj.name, name, "static-table-load", "`%s` reads an 8-byte table entry from static storage instead of the caller-supplied tables" % i.text.strip(), loc=f.obj.line_of(f.sec, i.addr)))
+    # ---- R09.7 / R09.8 (assembly scan loops)
+    import hitidx
+    import inplace
+    n98 = n97 = 0
+    for key, name in lib.entry_list:
+        if name not in ("_rolling_hash2_run_until_00", "_rolling_hash2_run_until_04"):
+            continue
+        f = lib.func(key)
+        ipk = absint.Interp(lib, lambda t, c=None: c19.summary_of(lib, t, c), keep_regs=True)
+        p8 = ipk.run(f)
+
+        def trig(i, p8=p8, ipk=ipk):
+            if not ((i.op.startswith("CMP") and not i.op.startswith(("CMPXCHG", "CMPS"))) or i.op.startswith("TEST")):
+                return False
+            regs = p8.reg_at.get(i.addr, {})
+            vals = [ipk.val(regs, u) for u in i.reg_uses_nomem() if u in x86.PARENT]
+            av = p8.maddr.get(i.addr)
+            want = "ARG@24" if i.op.startswith("CMP") else "ARG@16"
+            return any(absint.roots(v) and want in absint.roots(v) for v in vals) or (av is not None and av[0] == ("sp", 24 if want == "ARG@24" else 16))
+        try:
+            res8, mism, ncmp8 = hitidx.analyse(f, p8, is_trigger_cmp=trig)
+        except RuntimeError as e:
+            chk.broke("%s: %s" % (name, e))
+            continue
+        n97 += ncmp8
+        chk.obligation("R09.7", not mism, key=name, sample={"function": name, "trigger_compares_on_paths": ncmp8})
+        for (ci, pth) in mism[:2]:
+            chk.finding(Finding("R09.7", f.obj.name, name, "compare-domain", "`%s`: on a path through blocks %s one side of the hit compare is a pext-compressed value and the other is not: the predicate tested on this path is not (hash & mask) == trigger" % (ci.text.strip(), " -> ".join("%#x" % b for b in pth[:6])), loc=f.obj.line_of(f.sec, ci.addr)))
+        judged = 0
+        for (pth, kind, ll, stv) in res8:
+            if ll is None:
+                continue
+            if ll[0] == "unknown" or stv is None or stv[0] is None or kind not in ("hit", "miss"):
+                chk.broke("%s: path %s: consumed byte, exit kind (%s) or idx store not recognised" % (name, " -> ".join("%#x" % b for b in pth[:8]), kind))
+                continue
+            d = inplace.lf_add(stv[0], ll[0], -1)
+            if d is None or d[1]:
+                chk.broke("%s: stored index and consumed-byte index are not comparable on path %s" % (name, " -> ".join("%#x" % b for b in pth[:8])))
+                continue
+            judged += 1
+            want = 0 if kind == "hit" else 1
+            ok = d[0] == want
+            chk.obligation("R09.8", ok, key=(name, pth), sample={"function": name, "exit": kind, "stored_minus_last_consumed": d[0]})
+            if not ok:
+                chk.finding(Finding("R09.8", f.obj.name, name, "hit-index", "on the path %s the scan leaves %s and stores idx = (index of the last byte hashed) %+d; the contract is %+d: the caller's offset, hash and history go out of step" % (
+                    " -> ".join("%#x" % b for b in pth[:8]), "through the hit edge" if kind == "hit" else "at the bound", d[0], want), loc=f.obj.line_of(f.sec, stv[1].addr)))
+        n98 += judged
+    chk.floor("assembly scan-loop paths judged for the stored index", n98, 16)
+    chk.floor("trigger compares on assembly scan-loop paths", n97, 16)
+    # ---- R09.8 (C scan loop, IR)
+    nir = 0
+    for src, MM in sorted(mods.items()):
+        F8 = MM.functions.get("_rolling_hash2_run_until_base")
+        if F8 is None or F8.decl:
+            continue
+        an = {a.get("name"): n for n, a in enumerate(F8.args)}
+        if not {"idx", "b1", "t1", "mask"} <= set(an):
+            chk.broke("%s: parameters idx/b1/t1/mask of the base scan loop not found" % src)
+            continue
+
+        def lin(P, v, k, depth=0):
+            r = P.at(F8, v, k)
+            if isinstance(r, int):
+                return (None, r)
+            if isinstance(r, ir.Inst) and r.op in ("add", "sub") and depth < 40:
+                c = F8.const_int(r.ops[1])
+                if c is not None:
+                    ks = [q for q in range(k + 1) if P.blocks[q] == r.block.id]
+                    kk = ks[-1] if ks else k
+                    b_, o_ = lin(P, r.ops[0], kk, depth + 1)
+                    return (b_, o_ + (c if r.op == "add" else -c))
+            if isinstance(r, ir.Inst) and r.op in ("zext", "trunc", "sext", "freeze"):
+                return lin(P, r.ops[0], k, depth + 1)
+            return ((r.id, k if isinstance(r, ir.Inst) and r.op == "phi" else -1) if isinstance(r, ir.Inst) else repr(r), 0)
+        try:
+            plist = list(ir.paths_with_facts(F8))
+        except ir.PathLimit:
+            chk.broke("%s: too many paths in the base scan loop" % src)
+            continue
+        for P in plist:
+            last = None
+            kind = None
+            stored = None
+            for pos, I in enumerate(P.insts):
+                k = P.bidx[pos]
+                if I.op == "load":
+                    root, off = F8.ptr_root(I.ops[0])
+                    if F8.is_arg(root, an["t1"]):
+                        # index of the t1 entry = zext(load b1[i])
+                        g = F8.resolve(I.ops[0])
+                        ixv = None
+                        if isinstance(g, ir.Inst) and g.op == "getelementptr":
+                            bv = F8.resolve(g.ops[-1])
+                            while isinstance(bv, ir.Inst) and bv.op in ("zext", "sext", "trunc"):
+                                bv = F8.resolve(bv.ops[0])
+                            if isinstance(bv, ir.Inst) and bv.op == "load":
+                                g2 = F8.resolve(bv.ops[0])
+                                if isinstance(g2, ir.Inst) and g2.op == "getelementptr" and F8.is_arg(F8.ptr_root(bv.ops[0])[0], an["b1"]):
+                                    ixv = lin(P, g2.ops[-1], k)
+                        last = ixv or "unknown"
+                        kind = None
+                elif I.op == "store":
+                    root, off = F8.ptr_root(I.ops[1])
+                    if F8.is_arg(root, an["idx"]):
+                        stored = (lin(P, I.ops[0], k), I)
+                elif I.op == "br" and I.raw.get("cond") and last is not None:
+                    es = ir.expr_str(F8, I.ops[0])
+                    if "arg:mask" in es:
+                        fk = [q for q, ft in enumerate(P.facts) if ft[4] is I and P.fact_k[q] == k]
+                        if fk:
+                            ft = P.facts[fk[-1]]
+                            kind = "hit" if ft[1] == "eq" else "miss" if ft[1] == "ne" else "?"
+            if last is None:
+                continue
+            if last == "unknown" or stored is None or kind not in ("hit", "miss"):
+                chk.broke("%s: base scan loop path not understood (consumed byte %s, exit %s)" % (src, last, kind))
+                continue
+            (lb, lo), (sb, so) = last, stored[0]
+            if lb != sb:
+                chk.broke("%s: base scan loop: stored index and consumed-byte index have different roots on a path" % src)
+                continue
+            nir += 1
+            want = 0 if kind == "hit" else 1
+            ok = so - lo == want
+            chk.obligation("R09.8", ok, key=(src, tuple(P.blocks)), sample={"function": F8.name, "unit": src, "exit": kind, "stored_minus_last_consumed": so - lo})
+            if not ok:
+                chk.finding(Finding("R09.8", src, F8.name, "hit-index", "on a path that leaves the scan %s the value stored to *idx is (index of the last byte hashed) %+d; the contract is %+d" % ("through the hit test" if kind == "hit" else "at the bound", so - lo, want), loc=stored[1].loc()))
+    chk.floor("C scan-loop paths judged for the stored index", nir, 4)
     # ---- R09.6 unsigned bound
     nb6 = 0
     for src, M in sorted(mods.items()):
